@@ -1,6 +1,6 @@
 """which stages decide which property, and what each claim says"""
 
-FIX_COMMITS = ["88f9d1c", "d6a9f9a", "829a1d9", "4f7f1cb", "76e0d75"]
+FIX_COMMITS = ["88f9d1c", "d6a9f9a", "829a1d9", "4f7f1cb", "76e0d75", "61968ad"]
 
 TB_VERUS = [
     "Verus 0.2026.09.13 + Z3 (verifier, encoding of Rust semantics, vstd specs of Vec/String/str/slice iterators/Option/arrays)",
@@ -14,7 +14,7 @@ TB_CODEC_ENC = [
 ]
 
 from vx.kstages import k1_replace_inv, k2_eq_hash, k4_with_indices, k5_codec_cross  # noqa: E402
-from vx.witness import codec_witness, eqhash_witness, mixed_witness, replace_witness  # noqa: E402
+from vx.witness import c19_witness, codec_witness, eqhash_witness, mixed_witness, replace_witness  # noqa: E402
 
 PLAN = {
     "C12": {
@@ -70,7 +70,7 @@ PLAN = {
     },
     "C19": {
         "level": "proof",
-        "witness": codec_witness,
+        "witness": c19_witness,
         "verus_units": ["codec_enc"],
         "extra_stages": [k4_with_indices],
         "kani": True,
@@ -78,11 +78,12 @@ PLAN = {
         "technique": "contract-based deductive verification (Verus): the unsafe call's safety precondition as a `requires` on its assume_specification, discharged from the wire-alphabet invariant",
         "claim": "Partial, unbounded proof: both String::from_utf8_unchecked call sites (encoder.rs drain x2) are reached only with ASCII bytes. "
                  "Bounded stand-in (Kani): WithIndices::<&str>::substring reaches str::get_unchecked only with in-range char-boundary ranges, for all index pairs over a text catalogue. "
-                 "Rope get_unchecked sites, the Rope instance of WithIndices and the lifetime transmutes are not decided.",
+                 "Bounded stand-in (Kani): Rope::get_byte_slice / get_byte on degenerate ropes (a multi-piece representation holding no piece) reach no unchecked index, for every range "
+                 "(found and fixed an out-of-bounds get_unchecked). Rope get_unchecked sites on non-degenerate ropes, the Rope instance of WithIndices and the lifetime transmutes are not decided.",
         "note": "Partial. The `requires` (all bytes < 128) on from_utf8_unchecked is a strengthening of its documented safety condition (valid UTF-8).",
         "trusted_base": TB_VERUS + TB_CODEC_ENC,
         "assumptions": ["fields < 2^30"],
-        "not_covered": ["rope.rs get_unchecked (6 sites)", "WithIndices<Rope>::substring", "lifetime-extending transmutes", "concurrent use"],
+        "not_covered": ["rope.rs get_unchecked (6 sites) on ropes that hold pieces", "WithIndices<Rope>::substring", "lifetime-extending transmutes", "concurrent use"],
         "design_ref": "DESIGN.md §4/C19",
     },
     "C05": {
